@@ -318,7 +318,7 @@ def c204(ctx):
                 inner = ctx.calls(R, f, r"lsmtk::tree::Version::apply_compaction_inner$")
                 ctx.order_chain(R, f, [("ongoing.swap_remove(claim)", sr), ("apply_compaction_inner", inner)])
             for pt in sr:
-                g = K.guarded_by_call(f, pt, r"Arc.*::ptr_eq$", label="otherwise")
+                g = K.guarded_by_call(f, pt, r"Arc.*::ptr_eq$", label="sw:1")
                 ctx.check(R, f, "removes-own", g is not None, "the removed claim is the one that is pointer-equal to the argument", "a claim other than the given one can be removed", pt=pt)
     pushers = set()
     for g in ctx.prog.fns.values():
